@@ -221,8 +221,17 @@ func runE3(prop, tier string, seed uint64) int {
 		// confirm on a fresh directory with a fresh solo cache (nothing memoised)
 		fresh := e3.NewSoloCache(cli, filepath.Join(s.dir, "solo-confirm"))
 		o1 := e3.RunPlan(cli, root, fresh, f.plan)
+		attempts := 1
+		for ; attempts < 8 && (o1.V == nil || o1.V.Class != f.v.Class || o1.V.Sub != f.v.Sub); attempts++ {
+			// the tool is a real process: if it starts threads of its own, their interleaving is not the simulator's to decide
+			o1 = e3.RunPlan(cli, root, fresh, f.plan)
+		}
 		if o1.V == nil || o1.V.Class != f.v.Class || o1.V.Sub != f.v.Sub {
-			return trouble("violation %s of history %d did not reproduce on a fresh directory - harness nondeterminism, refusing to report", sig, f.idx)
+			return trouble("violation %s of history %d did not reproduce in 8 runs on a fresh directory - nondeterminism outside the simulator's control, refusing to report", sig, f.idx)
+		}
+		confirmNote := "confirmed on a fresh directory"
+		if attempts > 1 {
+			confirmNote = fmt.Sprintf("seen again on a fresh directory at attempt %d of 8: the tool's behaviour on this history is not deterministic (threads of its own?); a replay tries up to 8 times", attempts)
 		}
 		min, steps := e3.Shrink(f.plan, func(p *e3.Plan) bool { ok, _ := same(p); return ok }, shrinkBudget)
 		ok, o2 := same(min)
@@ -230,7 +239,7 @@ func runE3(prop, tier string, seed uint64) int {
 			min, steps, o2 = f.plan, 0, o1
 		}
 		path := filepath.Join(outDir(), "replays", fmt.Sprintf("%s-%d-%d-%s.json", prop, seed, f.idx, f.v.Class))
-		if err := e3.WriteReplay(path, prop, tier, seed, f.idx, tree, min, o2.V, o2.Hash, steps > 0, steps, "confirmed on a fresh directory"); err != nil {
+		if err := e3.WriteReplay(path, prop, tier, seed, f.idx, tree, min, o2.V, o2.Hash, steps > 0, steps, confirmNote); err != nil {
 			return trouble("%v", err)
 		}
 		if k := known.match(prop, sig); k != nil {
@@ -316,7 +325,7 @@ func faultProbeName(k string) string {
 		return e3.KText
 	case "dir", "dir-named-go":
 		return e3.KDir
-	case "dangling-symlink-go", "dangling-symlink", "symlink-to-dir-go":
+	case "dangling-symlink-go", "dangling-symlink", "symlink-to-dir-go", "symlink-to-go-file":
 		return e3.KSymlink
 	}
 	return k
@@ -378,6 +387,9 @@ func replayE3(path string) int {
 		e3.ClockCLI = clockCLI
 	}
 	o := e3.RunPlan(cli, filepath.Join(s.dir, "root"), e3.NewSoloCache(cli, filepath.Join(s.dir, "solo")), p)
+	for a := 1; a < 8 && o.V == nil && rf.Violation != nil && strings.Contains(rf.Note, "not deterministic"); a++ {
+		o = e3.RunPlan(cli, filepath.Join(s.dir, "root"), e3.NewSoloCache(cli, filepath.Join(s.dir, "solo")), p)
+	}
 	hash := fmt.Sprintf("%016x", o.Hash)
 	if o.V == nil {
 		fmt.Printf("REPLAY property=%s no violation hash=%s\n", rf.Property, hash)
